@@ -1,7 +1,7 @@
 #!/bin/sh
 # tools/integrate_ext.sh Cxx Area — integrate an audit/extend builder's deliverables from /tmp/build/Cxxe/verif
 set -e
-P=$1; A=$2; S=/tmp/build/${P}e/verif; L=lean/MokapotVerif
+P=$1; A=$2; S=/tmp/build/${P}${SUF:-e}/verif; L=lean/MokapotVerif
 cd /verif
 for f in $S/$L/Model/$A*.lean $S/$L/Ops/$A*.lean $S/$L/Lemmas/$A*.lean $S/$L/Props/$P*.lean $S/$L/Mutants/$A*.lean $S/$L/Spec/$A*.lean; do
   [ -f "$f" ] && cp "$f" "${f#$S/}" && echo "  + ${f#$S/}"
